@@ -201,6 +201,18 @@ def signature(f: dict) -> str:
 
 
 def _worker_init():
+    # one core per worker: XLA compile/run is effectively single-threaded for these tiny programs and
+    # unpinned workers spend most of their time in futex contention
+    try:
+        import multiprocessing as mp
+
+        ident = mp.current_process()._identity
+        if ident and hasattr(os, "sched_setaffinity") and not os.environ.get("VERIF_NOPIN"):
+            cpus = sorted(os.sched_getaffinity(0))
+            if len(cpus) > 1:
+                os.sched_setaffinity(0, {cpus[(ident[0] - 1) % len(cpus)]})
+    except Exception:
+        pass
     os.environ.setdefault("JAX_PLATFORMS", "cpu")
     os.environ.setdefault(
         "XLA_FLAGS",
@@ -265,6 +277,20 @@ def match_finding(fail: dict, findings: list[dict]):
         if fd.get("property") != fail["property"]:
             continue
         ok = True
+        if "component_contains" in fd:
+            parts = set(fail["component"].split("+"))
+            need = fd["component_contains"]
+            need = [need] if isinstance(need, str) else list(need)
+            if not any(n in parts for n in need):
+                continue
+        if "component_all" in fd:
+            parts = set(fail["component"].split("+"))
+            if not all(n in parts for n in fd["component_all"]):
+                continue
+        if "program" in fd:
+            prog = (fail.get("detail") or {}).get("program") if isinstance(fail.get("detail"), dict) else None
+            if prog != fd["program"]:
+                continue
         for k in ("component", "op", "input_class", "symptom"):
             if k not in fd:
                 continue
@@ -446,6 +472,9 @@ def report(mod, tier, seed, results, wall, replay=None) -> int:
             json.dump(ev, fh, indent=1)
         os.replace(tmp, os.path.join(edir, f"{prop}.json"))
 
+    if os.environ.get("VERIF_TIMING"):
+        for r in sorted(results, key=lambda r: -r["wall_s"])[:12]:
+            print(f"  timing {r['wall_s']:7.1f}s ev={r['evaluations']:6d} {r['case']}")
     status = "VIOLATIONS" if rc else "ok"
     print(
         f"[{prop}] {status}: tier={tier} seed={seed} cases={len(results)} evaluations={evaluations} "
